@@ -11,12 +11,14 @@ Item(k, id, form, doc, trail, gen, named, marked, lookalike, nmeth, short, oneli
 \* long: the first line of the item's comment is much longer than the directive line below it
 WithLong(it) == [it EXCEPT !.long = TRUE]
 \* nm: how a marked converter interface is called - "std"; "prefix": the name of the file's other converter interface
-\* followed by more letters (ConvergenStorage next to Convergen); "long": forty characters
+\* followed by more letters (ConvergenStorage next to Convergen); "long": forty characters; "recvsame": the standard
+\* name, but the METHODS are called like the other converter interface's and carry a :recv notation
 WithNm(it, n) == [it EXCEPT !.nm = n]
 Decl(id, form, doc, trail, gen) == Item("decl", id, form, doc, trail, gen, FALSE, FALSE, FALSE, 0, FALSE, FALSE, FALSE, FALSE, 1)
 Intf(id, named, marked, lookalike, doc, gen, nmeth, short, oneline, mdoc, trail, after, gap) ==
   Item("intf", id, "intf", doc, trail, gen, named, marked, lookalike, nmeth, short, oneline, mdoc, after, gap)
 TMark(id) == Item("tmark", id, "type", TRUE, FALSE, FALSE, FALSE, TRUE, FALSE, 0, FALSE, FALSE, FALSE, FALSE, 1)
+VMark(id) == Item("vmark", id, "var", TRUE, FALSE, FALSE, FALSE, TRUE, FALSE, 0, FALSE, FALSE, FALSE, FALSE, 1)
 Float(id) == Item("float", id, "float", FALSE, FALSE, FALSE, FALSE, FALSE, FALSE, 0, FALSE, FALSE, FALSE, FALSE, 1)
 \* a floating comment whose last line is a go:generate line, below a long line
 FloatGen(id) == WithLong([Float(id) EXCEPT !.gen = TRUE])
@@ -44,6 +46,10 @@ InitAccept ==
        \/ \E nmeth \in {1, 2}, mdoc \in B, trail \in B :
             layout = Lay(pre \o <<ConvShape("c1", named, doc, gen, nmeth, short, FALSE, mdoc, trail, after, gap)>> \o post,
                          FALSE, "gobuild", "none", "none")
+       \* the setup file dot-imports a package and a notation names one of its functions bare
+       \/ \E nmeth \in {1, 2}, mdoc \in B :
+            layout = Lay(pre \o <<ConvShape("c1", named, doc, gen, nmeth, short, FALSE, mdoc, FALSE, after, gap)>> \o post,
+                         FALSE, "gobuild", "dot", "none")
        \* the first of two converter interfaces is called like the second plus more letters, or has a very long name
        \/ \E nm \in {"prefix", "long"} :
             /\ ~named /\ IsConv(post) /\ post[1].nm = "std" /\ (nm = "prefix" => ~(post[1].short /\ ~post[1].doc))
@@ -57,23 +63,29 @@ InitAccept ==
 DeclAttrs == {<<FALSE, FALSE, FALSE>>, <<TRUE, FALSE, FALSE>>, <<TRUE, TRUE, FALSE>>, <<TRUE, FALSE, TRUE>>, <<FALSE, TRUE, FALSE>>, <<FALSE, FALSE, TRUE>>}
 Forms == {"var", "func", "type", "const", "varblock", "method", "blockvar"}
 InitCarry ==
-  /\ \E named \in B, form1 \in Forms, a1 \in DeclAttrs, mid \in {"none", "float", "floatgen"}, long1 \in B, pkgdoc \in B, after \in B,
+  /\ \E named \in B, form1 \in Forms, a1 \in DeclAttrs, mid \in {"none", "float", "floatgen"}, long1 \in B, second \in B, pkgdoc \in B, after \in B,
         build \in {"gobuild", "plusbuild", "both"}, imports \in {"none", "used", "mixed"} :
        \E post \in {<< >>} \cup {<<Decl("post", f, a[1], a[2], a[3])>> : f \in {"func", "type", "varblock"}, a \in DeclAttrs} :
-         /\ (long1 => a1[1] /\ a1[3] /\ form1 \in {"var", "func", "type"})      \* a long doc line matters above a go:generate line only
+         /\ (long1 => a1[1] /\ a1[3] /\ form1 \in {"var", "func", "type"})
+         /\ (second => mid = "none" /\ ~long1 /\ build = "gobuild" /\ imports = "none")      \* a long doc line matters above a go:generate line only
          /\ layout = Lay(<<IF long1 THEN WithLong(Decl("pre", form1, a1[1], a1[2], a1[3])) ELSE Decl("pre", form1, a1[1], a1[2], a1[3])>>
                       \o (CASE mid = "float" -> <<Float("fl")>> [] mid = "floatgen" -> <<FloatGen("fl")>> [] OTHER -> << >>)
                       \o <<ConvShape("c1", named, ~named, FALSE, 2, FALSE, FALSE, named, after, after, 1)>>
-                      \o post, pkgdoc, build, imports, "none")
+                      \o post
+                      \* a second converter interface further down whose name sorts BEFORE the first one's: blocks are
+                      \* generated in name order but belong where their interfaces stood
+                      \o (IF second THEN <<Medium("c0", FALSE)>> ELSE << >>),
+                      pkgdoc, build, imports, "none")
   /\ Rest
 
 \* ---- C17: mixes of interfaces x sibling files
-Kinds == {"named", "marked", "plain", "lookalike", "tmark"}
+Kinds == {"named", "marked", "plain", "lookalike", "tmark", "vmark"}
 Mk(kind, id) == CASE kind = "named"     -> Medium(id, TRUE)
                   [] kind = "marked"    -> Medium(id, FALSE)
                   [] kind = "plain"     -> Plain(id)
                   [] kind = "lookalike" -> Intf(id, FALSE, FALSE, TRUE, TRUE, FALSE, 1, FALSE, FALSE, FALSE, FALSE, FALSE, 1)
                   [] kind = "tmark"     -> TMark(id)
+                  [] kind = "vmark"     -> VMark(id)
 Emb == Intf("emb", FALSE, FALSE, FALSE, TRUE, FALSE, 1, FALSE, FALSE, FALSE, FALSE, FALSE, 1)
 \* at most one interface may be called Convergen in one file
 OneNamed(ks) == Cardinality({j \in DOMAIN ks : ks[j] = "named"}) <= 1
@@ -98,6 +110,13 @@ InitSelect ==
               b == IF tight THEN (IF other = "named" THEN TightNamed("i2") ELSE ConvShape("i2", FALSE, FALSE, FALSE, 1, FALSE, FALSE, FALSE, FALSE, FALSE, 1))
                             ELSE Medium("i2", other = "named")
               two == IF nmFirst THEN <<a, b>> ELSE <<b, a>> IN
+          layout = LayE(two \o (IF tail THEN <<Plain("i3")>> ELSE << >>), TRUE, "gobuild", "used", "none", "none")
+     \* two converter interfaces with the SAME method names: the second one's methods carry :recv, so they become
+     \* methods of the source type while the first one's are plain functions - different declarations, both required
+     \/ \E first \in {"named", "marked"}, secondFirst \in B, tail \in B :
+          LET a == Mk(first, "i1")
+              b == WithNm(Medium("i2", FALSE), "recvsame")
+              two == IF secondFirst THEN <<b, a>> ELSE <<a, b>> IN
           layout = LayE(two \o (IF tail THEN <<Plain("i3")>> ELSE << >>), TRUE, "gobuild", "used", "none", "none")
   /\ Rest
 
